@@ -30,6 +30,11 @@ func Parse(source string) (expr Expression, err error) {
 	if err != nil {
 		return nil, err
 	}
+	if p.val == nil {
+		// the source was a statement (it began with one of the internal selectors,
+		// "%assign ", "{%when " ...), not an expression: there is nothing to evaluate
+		return nil, SyntaxError(fmt.Errorf("syntax error in %q", source).Error())
+	}
 	return &expression{p.val}, nil
 }
 
